@@ -130,7 +130,11 @@ func (w *World) injectWrite() error {
 	}()
 	if w.injectOneFrame { // a one-page transaction: exactly one WAL frame
 		w.version++
-		if _, err := w.injConn.Exec("UPDATE ver SET n=?", w.version); err != nil {
+		q := "UPDATE ver SET n=?"
+		if w.atPoint && w.hasOnef { // a point injection writes a DIFFERENT page than a log-record injection of the same op
+			q = "UPDATE onef SET n=?"
+		}
+		if _, err := w.injConn.Exec(q, w.version); err != nil {
 			w.version--
 			return err
 		}
@@ -181,6 +185,8 @@ type World struct {
 	injectVersioned bool
 	injectOneFrame   bool
 	injectPoint      string
+	atPoint          bool
+	hasOnef          bool
 	pointArmed       bool
 	injectComposite  bool // INJX: after the one-frame commit also end the long reader and run an application PASSIVE checkpoint
 	wtConn           *sql.DB // connection of the open spilled write transaction (ops WT+ / WT- / WTR)
@@ -1103,6 +1109,13 @@ var ckptWindowScripts = func() (l [][2]string) {
 				fmt.Sprintf("OPEN S W W SW LR+ INJX=%d CK-%s SW", k, mode)})
 		}
 	}
+	// ... and a second one-frame commit (another page) that restarts the WAL between the post-PRAGMA
+	// header read and the post-checkpoint copy (Db/Machine.v full_checkpoint_post_copy_window_refuted;
+	// fixed in /repo)
+	for _, mode := range []string{"FULL", "RESTART"} {
+		l = append(l, [2]string{"ckpt-post-copy-window:" + mode,
+			fmt.Sprintf("OPEN S W W SW LR+ INJX=5 INJP=pt.ckpt.postcopy CK-%s SW", mode)})
+	}
 	return l
 }()
 
@@ -1118,6 +1131,16 @@ func runScriptAs(rc *Recorder, dir string, rng *rand.Rand, script, cfgs, scenari
 	defer func() { w.closeReader(); w.closeWT(false); w.closeWTConn(); w.app.Close() }()
 	w.scenario = scenario
 	w.scripted = true
+	if strings.Contains(script, "INJP=") {
+		// a second one-page table, so that two injected one-frame commits touch different pages
+		if _, err := w.app.Exec("CREATE TABLE onef(id INTEGER PRIMARY KEY, n INTEGER)"); err != nil {
+			return err
+		}
+		if _, err := w.app.Exec("INSERT INTO onef VALUES (1, 0)"); err != nil {
+			return err
+		}
+		w.hasOnef = true
+	}
 	w.useInject = true
 	open := func() error {
 		if w.ldb != nil {
@@ -1165,9 +1188,9 @@ func runScriptAs(rc *Recorder, dir string, rng *rand.Rand, script, cfgs, scenari
 					return
 				}
 				w.pointArmed = false
-				w.injecting = true
+				w.injecting, w.atPoint = true, true
 				err := w.injectWrite()
-				w.injecting = false
+				w.injecting, w.atPoint = false, false
 				res := "ok"
 				if err != nil {
 					res = "busy"
